@@ -212,7 +212,7 @@ pub fn run() {
     let cc = corpus::char_class_programs();
     run_family("f:character-classes", &cc, &mut fam, &mut bad, &mut classes);
     // (e) short strings
-    let shorts = corpus::short_strings(if quick { 3 } else { 4 });
+    let shorts = corpus::short_strings(if quick { 3 } else { 5 });
     run_family("e:short-strings", &shorts, &mut fam, &mut bad, &mut classes);
     // (c) single-token mutations: of the accepted sentences and of the repository's programs
     let mut muts: Vec<String> = vec![];
@@ -249,7 +249,7 @@ pub fn run() {
     ctx.set("distinct_nontrivial", accepted);
     ctx.set("rule", "every input of the enumerated families is parsed by AsmParser::parse (under catch_unwind) and by REF-PARSE; accept/reject, error class and the complete AST (PartialEq on Asm) must agree; distinct_nontrivial = inputs accepted by both (a full AST was compared), families are deduplicated sets");
     ctx.set("exhaustive", true);
-    ctx.set("bounds", format!("sentence family: every instruction form x operand-shape tokens x register tokens x numeric boundary tokens x separator and case variants ({}); all strings of length <= {} over a 24-symbol alphabet after a valid header; single-token mutations (delete/duplicate/replace by 30 tokens) of every {}th accepted sentence and of {} repository programs", if quick { "3 separators" } else { "5 separators" }, if quick { 3 } else { 4 }, step, repo.len()));
+    ctx.set("bounds", format!("sentence family: every instruction form x operand-shape tokens x register tokens x numeric boundary tokens x separator and case variants ({}); all strings of length <= {} over a 24-symbol alphabet after a valid header; single-token mutations (delete/duplicate/replace by 30 tokens) of every {}th accepted sentence and of {} repository programs", if quick { "3 separators" } else { "5 separators" }, if quick { 3 } else { 5 }, step, repo.len()));
     let mut fj = Json::obj();
     for (k, (n, a)) in &fam {
         let mut o = Json::obj();
